@@ -120,5 +120,7 @@ Definition tmx_make (p : list Z) (stamp src : bytes) : res tm :=
   | 5 => do t <- tm_new (g 1%nat) (g 2%nat) stamp src (g 3%nat) (g 4%nat) (g 5%nat) (g 6%nat) (g 7%nat) (g 8%nat);
          do r <- tm_pack t; srv17_unpack (fst r) (len stamp)
   | 6 => tm_new (g 1%nat) (g 2%nat) stamp [] 0 0 0 0 0 0
+  (* PusTm.empty(): timestamp = CdsShortTimestamp.empty().pack() *)
+  | 7 => tm_new 0 0 [64; 0; 0; 0; 0; 0; 0] [] 0 0 0 0 0 0
   | _ => Err EOther
   end.
